@@ -32,6 +32,38 @@ def run(ctx):
                 except Exception as e:
                     h = 'raise:' + type(e).__name__
                 cases.append(('sighash %s %d %s %d %d %s' % (raw.hex(), i, hexp(m['sc']), m['val'], ht, m['wt']), h, True))
+        # history: the transaction object is changed IN PLACE after digests were computed (same numbers of inputs and outputs);
+        # the digests computed afterwards must be those of the transaction as it now is
+        if not big and trial % 2 == 0:
+            import copy
+            d2 = copy.deepcopy({k: v for k, v in d.items() if k != 'meta'})
+            edits = []
+            if t.outputs and rng.random() < 0.8:
+                j = rng.randrange(len(t.outputs))
+                nv = (d['outs'][j][0] + rng.choice([1, 1000, 2 ** 32])) % (21 * 10 ** 14)
+                t.outputs[j].value = nv
+                d2['outs'][j] = (nv, d['outs'][j][1])
+                edits.append('output value')
+            if rng.random() < 0.6:
+                j = rng.randrange(len(t.inputs))
+                ns = rng.choice([0, 1, 10, 0xfffffffd])
+                t.inputs[j].sequence = ns
+                d2['ins'][j] = (d['ins'][j][0], d['ins'][j][1], d['ins'][j][2], ns)
+                edits.append('sequence')
+            if rng.random() < 0.5:
+                t.locktime = (t.locktime + 7) % 2 ** 32
+                d2['locktime'] = t.locktime
+                edits.append('locktime')
+            raw2 = txgen.ser_tx(d2)
+            for i, m in enumerate(d['meta']):
+                try:
+                    h = t.signature_hash(i, 1, t.inputs[i].witness_type).hex()
+                except Exception as e:
+                    h = 'raise:' + type(e).__name__
+                ctx.count('digest-after-in-place-edit')
+                cases.append(('sighash %s %d %s %d %d %s' % (raw2.hex(), i, hexp(m['sc']), m['val'], 1, m['wt']), h, True))
+            d = dict(d2, meta=d['meta'])
+            raw = raw2
         # sign with all keys, then check every signature the library placed in the transaction
         if not big:
             try:
